@@ -223,28 +223,38 @@ Definition nonempty (o : option str) : option str :=
 
 (* [guess] = mimetypes.guess_type(filename) (an oracle); [charset] = '' for a falsy charset.
    Result: None = ValueError from the header store; else (Content-Encoding, Content-Type, Content-Disposition) *)
+Definition present_mime (guess : option str * option str) (mimetype : mime_arg) : option str * option str :=
+  match mimetype with
+  | MAuto => (nonempty (fst guess), nonempty (snd guess))     (* l.87-89 *)
+  | MNone => (None, None)
+  | MGiven m => (nonempty (Some m), None)
+  end.
+
+Definition present_ctype (mt : option str) (charset : str) : option str :=     (* l.91-94 *)
+  match mt with
+  | None => None
+  | Some m =>
+    if startswith m s_text_slash && negb (is_nil charset)
+       && negb (match findb s_charset m with Some _ => true | None => false end)
+    then Some (m ++ s_charset_eq ++ charset) else Some m
+  end.
+
+Definition present_cdisp (filename : str) (download : dl_arg) : option str :=  (* l.96-98 *)
+  match download with
+  | DNo => None
+  | DTrue => Some (s_attach ++ basename filename ++ [34%N])
+  | DName n => Some (s_attach ++ basename n ++ [34%N])
+  end.
+
+Definition bad_hval (o : option str) : bool := match o with Some v => has_ctl v | None => false end.
+
 Definition sf_present (filename : str) (guess : option str * option str)
            (mimetype : mime_arg) (charset : str) (download : dl_arg)
   : option (option str * option str * option str) :=
-  let '(mt, enc) := match mimetype with
-                    | MAuto => (nonempty (fst guess), nonempty (snd guess))     (* l.87-89 *)
-                    | MNone => (None, None)
-                    | MGiven m => (nonempty (Some m), None)
-                    end in
-  let ctype := match mt with                                                    (* l.91-94 *)
-               | None => None
-               | Some m =>
-                 if startswith m s_text_slash && negb (is_nil charset)
-                    && negb (match findb s_charset m with Some _ => true | None => false end)
-                 then Some (m ++ s_charset_eq ++ charset) else Some m
-               end in
-  let cdisp := match download with                                              (* l.96-98 *)
-               | DNo => None
-               | DTrue => Some (s_attach ++ basename filename ++ [34%N])
-               | DName n => Some (s_attach ++ basename n ++ [34%N])
-               end in
-  let bad o := match o with Some v => has_ctl v | None => false end in
-  if bad enc || bad ctype || bad cdisp then None else Some (enc, ctype, cdisp).
+  let enc := snd (present_mime guess mimetype) in
+  let ctype := present_ctype (fst (present_mime guess mimetype)) charset in
+  let cdisp := present_cdisp filename download in
+  if bad_hval enc || bad_hval ctype || bad_hval cdisp then None else Some (enc, ctype, cdisp).
 
 (* bytes delivered by a body *)
 Definition body_bytes (file : list N) (b : sbody) : list N :=
